@@ -10,6 +10,10 @@ CHECKS=("$@"); [ ${#CHECKS[@]} -eq 0 ] && CHECKS=("$P")
 if [ -n "$(git -C /repo status --porcelain)" ]; then echo "/repo is not clean"; exit 2; fi
 git -C /repo apply "$S/patch.diff" || { echo "patch does not apply"; exit 2; }
 trap 'git -C /repo checkout -- . ; git -C /repo clean -fdq' EXIT
+# evidence and replays of a seeded run go to a scratch directory: the files under /verif/evidence
+# always describe the unchanged tree
+SCR="${SEED_SCRATCH:-/tmp/seedrun}/$(basename "$S")"; mkdir -p "$SCR/evidence" "$SCR/replays"
+export VERIF_EVIDENCE="$SCR/evidence" VERIF_REPLAYS="$SCR/replays"
 for c in "${CHECKS[@]}"; do
   echo "== $c on seed $(basename "$S")"
   (cd "$V" && timeout 3000 ./check "$c" 2>&1 | grep -v "^When parsing\|SyntaxWarning" | grep "VIOLATION\|KNOWN-FINDING\|violations=\|^  \[" | head -8)
